@@ -67,6 +67,21 @@ Theorem C04_property :
 Proof. exact c04_prop. Qed.
 Print Assumptions C04_property.
 
+(* root schemas — for every object and every oneof: kind, name, description and the
+   properties (norm_root: kind / name / description as declared, properties in normal
+   form); exact as for properties *)
+Theorem C04_root : forall env d o,
+  zero_std env = true -> rt_root d = true ->
+  write_root env d = Ok o -> read_root env o = Ok (norm_root env d).
+Proof. exact c04_root. Qed.
+Print Assumptions C04_root.
+
+Theorem C04_root_exact : forall env d o,
+  zero_std env = true -> write_root env d = Ok o ->
+  (read_root env o = Ok (norm_root env d) <-> rt_root d = true).
+Proof. exact c04_root_exact. Qed.
+Print Assumptions C04_root_exact.
+
 (* second clause (the printed .proto text): reflection sees a field only through
    [c04_proj] (name, number, kind, label, optional keyword, the three annotations,
    the key annotation, the comment). If print + parse preserves that view of
